@@ -30,7 +30,7 @@ type c12Case struct {
 	Dsts []string   `json:"dsts"` // rename destinations tried for every directory
 }
 
-var c12Universe = []string{"a", "ab", "a_", "a%", "A", "a b", ".a", "a.", "é", "_", "%", "aa", "b", "B", "a\\", "a?", "a*", "[ab]", "a[b]", "?", "*"}
+var c12Universe = []string{"a", "ab", "a_", "a%", "A", "a b", ".a", "a.", "é", "_", "%", "aa", "b", "B", "a\\", "a?", "a*", "[ab]", "a[b]", "?", "*", "😀", "𝄞a", "a😀", "\uffff", "\uffffz", "~", "\x7f", "..x", "...", "a..", "-"}
 
 // sqlLike reports whether name matches the LIKE pattern (ASCII case-insensitive, _ and %).
 func sqlLike(pattern, name string) bool {
@@ -276,7 +276,7 @@ func TestC12(t *testing.T) {
 			c.Tree = append(c.Tree, e)
 		}
 		// a group of confusable sibling directories, each with children
-		groups := [][]string{{"a?", "ab", "a*", "abc"}, {"[ab]", "a", "b", "a[b]"}, {"*", "a", "?"}, {"a", "a_", "ab", "A"}, {"a%", "ab", "aa", "a"}, {"a", "A", "a."}, {"_", "a", "b", "%"}, {"a b", "a", "ab"}, {"a\\", "a", "a_"}, {"é", "a", "B", "b"}}
+		groups := [][]string{{"😀", "a", "\uffff", "𝄞a"}, {"a😀", "a", "ab"}, {"a?", "ab", "a*", "abc"}, {"[ab]", "a", "b", "a[b]"}, {"*", "a", "?"}, {"a", "a_", "ab", "A"}, {"a%", "ab", "aa", "a"}, {"a", "A", "a."}, {"_", "a", "b", "%"}, {"a b", "a", "ab"}, {"a\\", "a", "a_"}, {"é", "a", "B", "b"}}
 		if rapid.IntRange(0, 9).Draw(t, "confusable") < 8 {
 			grp := rapid.SampledFrom(groups).Draw(t, "group")
 			base := "/"
@@ -289,7 +289,7 @@ func TestC12(t *testing.T) {
 				d := path.Join(base, name)
 				add(d, true, 0)
 				if seen[d] {
-					add(path.Join(d, rapid.SampledFrom(comps).Draw(t, "kid")), rapid.Bool().Draw(t, "kiddir"), rapid.IntRange(0, 20).Draw(t, "kidsize"))
+					add(path.Join(d, rapid.SampledFrom(append(append([]string{}, comps...), c12Universe...)).Draw(t, "kid")), rapid.Bool().Draw(t, "kiddir"), rapid.IntRange(0, 20).Draw(t, "kidsize"))
 				}
 			}
 		}
